@@ -62,7 +62,10 @@ def window(draw, min_days=3, max_days=75, start_tods=((0, 0, 0), (14, 30, 0))):
         d0 = d1 - D.timedelta(days=n)
     d1 = d0 + D.timedelta(days=n)
     tod = draw(st.sampled_from(list(start_tods)))
-    return d0, d1, [d0.year, d0.month, d0.day] + list(tod), [d1.year, d1.month, d1.day, 23, 59, 0]
+    end_tod = [23, 59, 0]
+    if tuple(tod) == (0, 0, 0) and draw(st.sampled_from([False, False, False, True])):
+        end_tod = [0, 0, 0]          # a plain date as the end: the last day is still simulated in full
+    return d0, d1, [d0.year, d0.month, d0.day] + list(tod), [d1.year, d1.month, d1.day] + end_tod
 
 
 def instants(sched, start, end):
